@@ -164,6 +164,25 @@ func oracle(o runOut) (fs []failure) {
 				fs = append(fs, failure{"no-restart-after-eviction", tag + ": a packet from the same client after eviction did not start a working session"})
 			}
 		}
+	case "evict-unpackable":
+		// eviction must not depend on a successful send
+		if !r.FirstReply {
+			break // the session was never created: nothing to evict (reported as setup problem by the caller)
+		}
+		if !r.Evicted {
+			fs = append(fs, failure{"never-evicted:unpackable", fmt.Sprintf("%s (%s): a session whose only datagram could not be packed (%d pack failures logged) is still alive %d ms + 3 s after its last client packet; goroutines %d (idle %d), sockets %d (idle %d)",
+				tag, sc.Unpack, r.PackFailures, sc.NatMs, r.GAfterEvict, r.GRun, r.FAfterEvict, r.FRun+nc)})
+		} else {
+			if r.GAfterEvict > r.GRun {
+				fs = append(fs, failure{"goroutine-leak:after-eviction:unpackable", fmt.Sprintf("%s: %d goroutines with no session, %d after eviction\n%s", tag, r.GRun, r.GAfterEvict, r.LeakDump)})
+			}
+			if r.FAfterEvict > r.FRun+nc {
+				fs = append(fs, failure{"socket-leak:after-eviction:unpackable", fmt.Sprintf("%s: %d sockets with no session, %d after eviction", tag, r.FRun+nc, r.FAfterEvict)})
+			}
+			if !r.ReplyAfter || r.StartedAfter < 2*nc {
+				fs = append(fs, failure{"no-restart-after-eviction:unpackable", fmt.Sprintf("%s: a normal packet after the eviction did not round-trip through a fresh session (reply=%v, sessions started=%d)", tag, r.ReplyAfter, r.StartedAfter)})
+			}
+		}
 	case "init-fail":
 		if r.GAfterEvict > r.GRun {
 			fs = append(fs, failure{"goroutine-leak:init-fail:" + sc.Upstream, fmt.Sprintf("%s: %d goroutines idle, %d after failed initialisations\n%s", tag, r.GRun, r.GAfterEvict, r.LeakDump)})
@@ -188,10 +207,10 @@ func observe(o runOut) map[string]string {
 	} else if r.GEnd > r.GBase || r.FEnd > r.FBase {
 		m["leak"] = "yes"
 	}
-	if o.Sc.Kind == "evict" {
+	if o.Sc.Kind == "evict" || (o.Sc.Kind == "evict-unpackable" && r.FirstReply) {
 		m["evict"] = yn(r.Evicted)
 		if r.Evicted {
-			m["restart"] = yn(r.ReplyAfter)
+			m["restart"] = yn(r.ReplyAfter && (o.Sc.Kind == "evict" || r.StartedAfter >= 2*o.Sc.Clients))
 			if r.GAfterEvict > r.GRun || r.FAfterEvict > r.FRun+o.Sc.Clients {
 				m["leak"] = "yes"
 			}
@@ -271,7 +290,7 @@ func (e *engine) evaluate(o runOut) error {
 		ks = append(ks, k+"="+obs[k])
 	}
 	sort.Strings(ks)
-	sig := fmt.Sprintf("%s %s/%s/%s nat=%d c=%d echo=%v rel=%v@%d | %s", sc.Kind, sc.Server, sc.Batch, sc.Upstream, sc.NatMs, sc.Clients, sc.Echo, sc.ReleaseOK, sc.ReleaseMs, strings.Join(ks, " "))
+	sig := fmt.Sprintf("%s%s %s/%s/%s nat=%d c=%d echo=%v rel=%v@%d | %s", sc.Kind, sc.Unpack, sc.Server, sc.Batch, sc.Upstream, sc.NatMs, sc.Clients, sc.Echo, sc.ReleaseOK, sc.ReleaseMs, strings.Join(ks, " "))
 	nontrivial := o.Crash == "" && o.Res.Err == "" && (o.Res.Started > 0 || o.Res.InitFailures > 0)
 	rep.Case(sig, nontrivial)
 	rep.Count("kind=" + sc.Kind)
@@ -285,7 +304,10 @@ func (e *engine) evaluate(o runOut) error {
 	}
 	rep.Sample(map[string]any{"scenario": sc, "observed": strings.Join(ks, " "), "stop_ms": o.Res.StopMs, "started": o.Res.Started,
 		"goroutines": []int{o.Res.GBase, o.Res.GRun, o.Res.GEnd}, "sockets": []int{o.Res.FBase, o.Res.FRun, o.Res.FEnd}, "sent": o.Res.Sent})
-	if o.Crash == "" && o.Res.Err == "" && sc.Echo && !o.Res.FirstReply && sc.Kind != "evict" && sc.Kind != "stop-init" && sc.Kind != "init-fail" {
+	if o.Crash == "" && o.Res.Err == "" && sc.Kind == "evict-unpackable" && !o.Res.FirstReply {
+		rep.Count("setup:unpackable-session-not-created")
+	}
+	if o.Crash == "" && o.Res.Err == "" && sc.Echo && !o.Res.FirstReply && sc.Kind != "evict" && sc.Kind != "evict-unpackable" && sc.Kind != "stop-init" && sc.Kind != "init-fail" {
 		rep.Count("setup:no-first-reply")
 	}
 	if o.Crash == "" && o.Res.Err != "" {
@@ -377,6 +399,12 @@ func generate(r *common.Rng, n int, search bool, thorough bool) []Scenario {
 		}
 		for _, v := range natVariants {
 			add(Scenario{Kind: "evict", Server: v.server, Batch: v.batch, NatMs: natMsFor(v, "evict", rr), Clients: rr.Range(1, 2), Echo: true})
+			// sessions whose uplink never sends: every datagram fails to pack
+			up := "oversize"
+			if v.server == "socks5" && (round%2 == 0) {
+				up = "domain"
+			}
+			add(Scenario{Kind: "evict-unpackable", Unpack: up, Server: v.server, Batch: v.batch, NatMs: natMsFor(v, "evict", rr), Clients: rr.Range(1, 2), Echo: true})
 		}
 		for i, v := range all {
 			// held initialisation released with success AFTER Stop was called: the initialiser's swap finds serverConn
@@ -418,7 +446,7 @@ func main() {
 	rep := common.NewReport("C12", o)
 	rep.Engines = []string{"udplife"}
 	rep.Rule = "engine udplife: one child process per life-cycle run of a real relay (service.Config -> Manager) on loopback; " +
-		"scenario = kind {evict, stop-idle, stop-flood, stop-init (held SOCKS5 handshake released ok/fail before/after Stop), init-fail (reject/unresolvable/refused)} x " +
+		"scenario = kind {evict, evict-unpackable (the session's only datagrams cannot be packed: oversize for the client MTU / unresolvable domain), stop-idle, stop-flood, stop-init (held SOCKS5 handshake released ok/fail before/after Stop), init-fail (reject/unresolvable/refused)} x " +
 		"relay file {NAT, session} x {generic, mmsg} x server protocol x clients x echo; a run is non-trivial if at least one session was started or failed to initialise; " +
 		"distinct by scenario parameters and abstract outcome (stop prompt/timer, leak, evicted, restarted, panic); stop=timer iff Stop has not returned natTimeout/2 (<= 4 s, >= 2 s) after only in-flight work was left while the relay is quiescent (Stop in wg.Wait, downlink in the poller, nothing runnable)"
 	e := &engine{o: o, rep: rep, allowed: map[string]string{}}
@@ -441,7 +469,7 @@ func main() {
 			}
 		}
 	} else {
-		scs = generate(common.NewRng(o.Seed), o.Budget(40, 600), o.Search, o.Thorough())
+		scs = generate(common.NewRng(o.Seed), o.Budget(44, 600), o.Search, o.Thorough())
 	}
 	if err == nil {
 		par := 5
